@@ -245,8 +245,13 @@ def gen_case(rng, cfg, nops=None):
             if k == 0:
                 pin_corners(new, cfg, lin)
             upd = rng.random() < 0.85
+            # update(update_domain=False) re-bins with the OLD cell size: only
+            # legitimate when the smoothing lengths did not change
+            same_h = rng.random() < 0.4
+            if same_h:
+                new['h'] = list(old['h'])
             ops.append({'op': 'mutate', 'array': k, 'new': new, 'update': upd,
-                        'update_domain': rng.random() < 0.8})
+                        'update_domain': (not same_h) or rng.random() < 0.4})
             cur = list(cur)
             cur[k] = new
         elif kind == 'newarrays':
